@@ -10,3 +10,6 @@ import "github.com/orbs-network/lean-helix-go/services/interfaces"
 // L11: a PREPARE / COMMIT emitted by correct node a is acceptable to correct peer b of the same committee
 func lemmaC11Prepare(a, b *TermInCommittee, pm *interfaces.PrepareMessage) {}
 func lemmaC11Commit(a, b *TermInCommittee, cm *interfaces.CommitMessage)   {}
+
+// L11: a VIEW_CHANGE emitted by correct node a is acceptable to correct peer b, the leader it is addressed to
+func lemmaC11Vote(a, b *TermInCommittee, vcm *interfaces.ViewChangeMessage) {}
